@@ -456,7 +456,7 @@ func sortU64(a []uint64) {
 
 // vio records a violation when it belongs to the property being checked.
 func (c *Ctx) vio(prop, kind, what string, input interface{}) {
-	if c.Prop == prop {
+	if c.Prop == prop || (c.concurrent && c.Prop == "C16") {
 		c.Violate(kind, what, input)
 	} else {
 		c.Count("other-property-violation:" + prop + ":" + kind)
